@@ -296,7 +296,6 @@ static void one_case(vh::Ctx & c, uint64_t idx)
     } else {
       pcat = "generic"; lat = p.lat0 + rnd_dlat(); lon = p.lon0 + rnd_dlon();
     }
-    if (on_parallel && lat == p.lat0 && !p.tangent) {/* lat0 chosen on a parallel: still k = 1 */}
     c.cat(std::string("pt_") + pcat);
     c.count("points");
 
@@ -364,6 +363,7 @@ static void one_case(vh::Ctx & c, uint64_t idx)
     }
     if (!c.expect("inverse.finite", std::isfinite(back.latitude) && std::isfinite(back.longitude),
       "nonfinite", params, w3)) {continue;}
+    c.count(south ? "roundtrip_points_south" : "roundtrip_points_north");
     c.expect_le("roundtrip.lat_rad", fabsl((LD)back.latitude - (LD)lat), 1e-11L, "roundtrip", params, w3);
     c.expect_le("roundtrip.lon_rad", fabsl((LD)back.longitude - (LD)lon), 1e-11L, "roundtrip", params, w3);
 
